@@ -6,7 +6,8 @@ for d in seeded/C*; do
   sid=$(basename $d); id=${sid%%-*}
   wt=/tmp/wt_re_$sid
   git -C /repo worktree add -q $wt HEAD 2>/dev/null
-  if git -C $wt apply $PWD/$d/patch.diff 2>/dev/null || git -C $wt apply --3way $PWD/$d/patch.diff 2>/dev/null; then
+  pf=$PWD/$d/patch.diff; for alt in $PWD/$d/patch_rebased_*.diff; do [ -f "$alt" ] && pf=$alt; done
+  if git -C $wt apply $pf 2>/dev/null || git -C $wt apply --3way $pf 2>/dev/null; then
     VERIF_REPO=$wt ./check $id > /tmp/re_$sid.txt 2>&1; ec=$?
     echo "$sid exit=$ec $(grep -c '^VIOLATION' /tmp/re_$sid.txt) violations, $(grep -c '^HARNESS' /tmp/re_$sid.txt) harness errors"
   else
